@@ -310,11 +310,10 @@ func (e *Enc) applyContract(fr *Frame, c *Contract, key string, args []Term, arg
 	}
 	if c.ModAll {
 		e.havocAll(st)
-	} else {
-		for _, m := range c.Modifies {
-			if err := env.havocTarget(m, pre, st); err != nil {
-				e.problem("contract %s modifies %s: %v", key, m, err)
-			}
+	}
+	for _, m := range c.Modifies {
+		if err := env.havocTarget(m, pre, st); err != nil {
+			e.problem("contract %s modifies %s: %v", key, m, err)
 		}
 	}
 	if pureCond.S != "" {
@@ -728,6 +727,15 @@ func (e *Enc) havocLoopHeaps(fr *Frame, li *loopInfo, st *State) {
 	keys, all := e.loopWrites(fr, li)
 	if all {
 		e.havocAll(st)
+		// activation-local ghosts survive havocs of callees but not explicit writes in the loop
+		for name, g := range e.w.CS.Ghosts {
+			if g.Local {
+				k, _ := e.ghostKey(name)
+				if keys[k] {
+					st.heaps[k] = e.fresh("H_"+k+"_loop", e.heapSort[k])
+				}
+			}
+		}
 		return
 	}
 	targets, whole := e.loopMemTargets(fr, li, keys)
